@@ -14,8 +14,8 @@ RULE = ('cases = one call of rank_features_3MR: 1..30 features with names of mix
         'present or both absent); strategy in {median, mean, sum}; alpha, beta in {0, 0.5, 1, 3}; all-equal relevance; plus the same '
         'post-condition installed on task_ranking.rank_features_3MR during real 3MR task runs (dictionaries built by the pipeline). '
         'distinct = (n, strategy, alpha, beta, table hash); non-trivial = n >= 3 and the ranking differs from the plain relevance order.')
-REQUIRED = {'permutation-with-ranks': 200, 'first-is-max-relevance': 200, 'greedy-step-optimal': 500, 'pipeline-postcondition': 1}
-ASSUMPTIONS = ['pair dictionaries are symmetric', 'importance is recomputed in exact rational arithmetic; a chosen feature may trail the maximum by 1e-12 * scale (float rounding of the implementation)']
+REQUIRED = {'permutation-with-ranks': 200, 'first-is-max-relevance': 200, 'greedy-step-optimal': 500, 'pipeline-postcondition': 1, 'file-level-3mr': 1}
+ASSUMPTIONS = ['pair dictionaries are symmetric (the file-level oracle rebuilds them symmetrically from pairwise_ranks.tsv)', 'importance is recomputed in exact rational arithmetic; a chosen feature may trail the maximum by 1e-12 * scale (float rounding of the implementation)']
 WARM = [{}]
 WARM_CODE = 'import outrank.task_ranking'
 
@@ -84,8 +84,10 @@ def shard_direct(sh, part):
         name_kind = rng.choice(['str', 'str', 'int', 'hostile'])
         if name_kind == 'int':
             names = rng.sample(range(100), n)
+            if rng.random() < 0.6:
+                names[rng.randrange(n)] = 0          # 0-based integer ids: a falsy feature key
         elif name_kind == 'hostile':
-            names = rng.sample(['a', 'b', 'a b', 'é', 'label', 'x AND y', '', '0', 'f-(3; 100)'] + ['n%d' % i for i in range(40)], n)
+            names = rng.sample(['a', 'b', 'a b', 'é', 'label', 'x AND y', '', '0', 'f-(3; 100)', 0, ()] + ['n%d' % i for i in range(40)], n)
         else:
             names = ['f%d' % i for i in range(n)]
             rng.shuffle(names)
@@ -173,6 +175,44 @@ def shard_pipeline(sh, part):
         args = pipe.make_args(data_path=dpath, output_folder=out_dir, minibatch_size=200, heuristic='MI-numba-3mr', target_ranking_only='False', interaction_order=2,
                               combination_number_upper_bound=10 ** 4, include_cardinality_in_feature_names='False')
         ok, _ = sh.call('pipeline-postcondition', 'outrank_task_conduct_ranking', tr.outrank_task_conduct_ranking, args)
+        if ok:
+            verify_files(sh, out_dir, 'label')
         if ok and seen:
             s = seen[-1]
             sh.case(('pipeline', part, run, s[0], s[1], s[2]), True, 'pipeline-3mr', sample={'features': s[0], 'redundancy_pairs': s[1], 'relation_pairs': s[2], 'ranking_head': s[4]})
+
+
+def verify_files(sh, out_dir, label):
+    """File-level oracle, independent of the glue that builds the dictionaries: rebuild relevance / redundancy / relation from
+    pairwise_ranks.tsv (relation of a pair = score of its "a AND_REL b" column against the label, in both orientations; each
+    group min-max normalised as documented) and check 3mr_ranks.tsv for greedy optimality against them."""
+    import csv
+    import pandas as pd
+    with open(os.path.join(out_dir, 'pairwise_ranks.tsv'), newline='') as f:
+        r = csv.reader(f, delimiter='\t')
+        hdr = next(r)
+        trip = [(row[hdr.index('FeatureA')], row[hdr.index('FeatureB')], float(row[hdr.index('Score')])) for row in r]
+    rel_raw = {a: s for a, b, s in trip if b == label and ' AND_REL ' not in a and a != label}
+    relation_raw = {}
+    for a, b, s in trip:
+        if b == label and ' AND_REL ' in a:
+            x, y = a.split(' AND_REL ')[0], a.split(' AND_REL ')[1]
+            relation_raw[(x, y)] = s
+            relation_raw[(y, x)] = s
+    red_raw = {(a, b): s for a, b, s in trip if a != label and b != label and ' AND_REL ' not in a and ' AND_REL ' not in b}
+
+    def norm(d):
+        if not d:
+            return {}
+        lo, hi = min(d.values()), max(d.values())
+        if hi == lo:
+            return None
+        return {k: (v - lo) / (hi - lo) for k, v in d.items()}
+    relevance, redundancy, relation = norm(rel_raw), norm(red_raw), norm(relation_raw)
+    if relevance is None or redundancy is None or relation is None or not relevance:
+        sh.classes['file-level 3MR oracle skipped: a score group is constant (normalisation undefined)'] += 1
+        return
+    out = pd.read_csv(os.path.join(out_dir, '3mr_ranks.tsv'), sep='\t', keep_default_na=False)
+    nt = verify(sh, out, relevance, redundancy, relation, 'median', 1.0, 1.0, '3mr_ranks.tsv vs pairwise_ranks.tsv')
+    sh.ok('file-level-3mr')
+    sh.case(('files', out_dir[-12:], len(relevance), len(relation)), True, 'pipeline-3mr-files', sample={'features': len(relevance), 'relation_pairs': len(relation) // 2, 'ranking_head': list(out['Feature'])[:6]})
